@@ -296,7 +296,7 @@ func (en *Engine) doCopy(st *State, dstV, srcV Value, pos string) Value {
 		}
 		return ConstI(n)
 	}
-	if ok1 && dl <= 128 {
+	if ok1 && dl <= 512 {
 		// fixed-size destination, symbolic source length: element-wise conditional copy
 		n := Ite(Le(srcLen, ConstI(dl)), srcLen, ConstI(dl))
 		vals := make([]*Term, dl)
@@ -348,7 +348,43 @@ func (en *Engine) callFunction(st *State, f *Frame, x *ssa.Call, fn *ssa.Functio
 		fail("call to %s without body, contract or model at %s", name, pos)
 	}
 	if fn.Pkg != nil && !modulePkg(fn.Pkg.Pkg.Path()) {
-		fail("call to external function %s without model at %s", name, pos)
+		// an external function without a model: arbitrary results, and it may overwrite whatever
+		// its pointer/slice arguments designate. Sound over-approximation; whatever the contract of
+		// the function under verification says about those values can then not be proved.
+		en.externCalls["UNMODELLED external call "+name+" (arbitrary results, arguments' memory havocked)"] = true
+		for _, a := range args {
+			switch v := a.(type) {
+			case SliceV:
+				if v.R != nil {
+					en.checkWrite(st, v.R, v.Path, v.Off, v.Len, pos)
+					en.havocSlice(st, v)
+				}
+			case PtrV:
+				if v.R != nil {
+					en.checkWrite(st, v.R, v.Path, nil, nil, pos)
+					var facts []*Term
+					_, et := en.loadPath(st, en.regionCell(st, v.R), v.Path, v.R.typ)
+					st.mem[v.R] = en.storePath(st, en.regionCell(st, v.R), v.Path, v.R.typ, freshCell(et, v.R.name+".x", &facts))
+					for _, fc := range facts {
+						st.assume(fc)
+					}
+				}
+			}
+		}
+		sig := fn.Signature
+		switch sig.Results().Len() {
+		case 0:
+			f.env[x] = nil
+		case 1:
+			f.env[x] = en.freshValue(st, sig.Results().At(0).Type(), "ext."+fn.Name())
+		default:
+			var tv TupleV
+			for i := 0; i < sig.Results().Len(); i++ {
+				tv = append(tv, en.freshValue(st, sig.Results().At(i).Type(), fmt.Sprintf("ext.%s.%d", fn.Name(), i)))
+			}
+			f.env[x] = tv
+		}
+		return nil
 	}
 	if len(st.frames) > en.inlineDepthMax {
 		fail("inline depth exceeded at %s calling %s", pos, name)
